@@ -29,20 +29,24 @@ ALLOWED_AXIOMS = [
 ]
 META = {
     "level_text": "Machine-checked proofs (Coq, over the real numbers) about Gallina functions that are REGENERATED from platypus/problems.py by a fail-closed "
-                  "Python-AST translator on every run: for ZDT1-4,6 (every n >= 2), DTLZ1-4 (every number of objectives M >= 1, every n >= M-1) and DTLZ7 the generated "
-                  "objective vector equals the published formula written independently from the papers, has exactly nobjs entries, raises no Python exception "
-                  "on in-bounds input, and satisfies the published front bound (ZDT g >= 1 and f2 >= front(f1); DTLZ1 sum f = (1+g)/2 >= 1/2; DTLZ2-4 sum f^2 = (1+g)^2 >= 1, "
-                  "by a telescoping-product induction valid for all M).  All 43 classes and the DTLZ/WFG samplers are covered on the real code by a differential oracle "
-                  "against independent reference implementations (ZDT, DTLZ, UF1-10, UF13, CF1-10, WFG1-9; relative tolerance 1e-9), output count/finiteness checks at corners, "
-                  "boundary and random points, front inequalities, and sampler checks (in-bounds, front equation to 1e-9, mutual non-dominance: a batch fails when one sample is better than another "
+                  "Python-AST translator on every run: for ZDT1-4,6 (every n >= 2), DTLZ1-4 (every number of objectives M >= 1, every n >= M-1), DTLZ7, UF1-4,7 (every n >= 3) "
+                  "the generated objective vector equals the published formula written independently from the papers, has exactly nobjs entries and satisfies the published "
+                  "front bound (ZDT g >= 1 and f2 >= front(f1); DTLZ1 sum f = (1+g)/2 >= 1/2; DTLZ2-4 sum f^2 = (1+g)^2 >= 1 by a telescoping-product induction valid for all M; "
+                  "UF f2 >= front(f1) via fold invariants of the accumulation loop); ZDT/DTLZ evaluate raises no Python exception on in-bounds input; DTLZ sampler construction "
+                  "(distance variables 1/2) meets the front equation with equality; for the WFG4-9 shape stage sum (f_m/2m)^2 >= 1 given the transformed vector in [0,1]^M. "
+                  "All 43 classes and the DTLZ/WFG samplers are covered on the real code by a differential oracle against independent reference implementations "
+                  "(ZDT1-6, DTLZ1-4,7, UF1-10, UF13, CF1-10, WFG1-9; relative tolerance 1e-9), output count/finiteness checks at corners, boundary and random points, "
+                  "front inequalities, and sampler checks (in-bounds, front equation to 1e-9, mutual non-dominance: a batch fails when one sample is better than another "
                   "by more than 1e-9 in EVERY objective).",
     "level_note": "Theorems are over Coq's classical real numbers: binary64 rounding and libm are NOT modelled (on the front a float result may undershoot by ulps; the oracle uses 1e-9 slack). "
                   "Axioms (Print Assumptions): ClassicalDedekindReals.sig_forall_dec, ClassicalDedekindReals.sig_not_dec, FunctionalExtensionality.functional_extensionality_dep "
-                  "(the standard library's construction of R) and Classical_Prop.classic (standard-library facts about exp/ln/Rpower used for ZDT6's fourth root). "
+                  "(the standard library's construction of R) and Classical_Prop.classic (standard-library facts about exp/ln/Rpower/sqrt). "
                   "Trusted: the translator's reading of Python (float->R with literals read as written decimals, int->Z, list->list R, the helpers of coq/Base/RList.v), "
                   "the reference formulas of coq/Model/ProblemsRef.v being the published ones. DTLZ4 is proved for alpha at its constructor default 100. "
-                  "Theorems exist for ZDT1-4,6, DTLZ1-4,7 only; UF1-10 and the WFG shape functions are translated (definitions emitted, no theorem yet: "
-                  "uf_front, wfg_lower_partial remain stated goals); WFG transformations, UF11-13, CF1-10, ZDT5 are covered by the differential oracle only. "
+                  "PARTIAL: wfg_lower_partial is about the shape stage only and assumes the transformed vector lies in [0,1]^M (the WFG transformations/evaluate methods use "
+                  "map/functools.partial, are not translated, and their range lemmas are not proved); no *_defined (exception-freedom) theorem for UF1-4,7 and the WFG helpers "
+                  "(the predicates are generated; proofs not done). UF5,6,8,9,10 and the other WFG shape/transformation helpers are translated without theorems; "
+                  "CF1-10 are rejected by the translator (constraint stores are outside the grammar); those, WFG1-9 evaluate, UF11-13 and ZDT5 are covered by the differential oracle only. "
                   "UF11/UF12 have no independent reference (count/finiteness only). Sampler non-dominance: a pair is reported only when one sample is better by > 1e-9 in every objective; "
                   "float-vector dominance with a tie within 1e-9 in some objective (DTLZ4.random: cos of an angle < 1.5e-8 rounds to exactly 1.0, giving pairs like (1.0, 1e-87, 1e-17) vs (1.0, 6e-13, 4.5e-9) "
                   "that both lie on the unit sphere) is counted in the evidence, not reported. Recorded known findings: WFG1.random/UF13.random off-front (rounding of 0.35*2i/(2i) amplified by the 0.02 power), "
@@ -51,7 +55,8 @@ META = {
 }
 
 # classes/functions whose generated definitions the theorems of Props/C18.v use: a translation failure breaks an obligation
-REQUIRED = ["DTLZ1", "DTLZ2", "DTLZ3", "DTLZ4", "DTLZ7", "ZDT1", "ZDT2", "ZDT3", "ZDT4", "ZDT6"]
+REQUIRED = ["DTLZ1", "DTLZ2", "DTLZ3", "DTLZ4", "DTLZ7", "ZDT1", "ZDT2", "ZDT3", "ZDT4", "ZDT6", "UF1", "UF2", "UF3", "UF4", "UF7",
+            "_correct_to_01", "_create_A", "_calculate_x", "_concave", "_calculate_f", "_WFG_calculate_f", "_WFG4_shape"]
 GEN_FILE = os.path.join(C.COQ, "Gen", "Problems.v")
 TOL = 1e-9
 _TR = {}
